@@ -22,6 +22,14 @@ Theorem C08_monotone : forall ops s v, c08_present s v = true -> c08_present (c0
 Proof. exact run_present_mono. Qed.
 Print Assumptions C08_monotone.
 
+(* nothing stored is ever rewritten by a read: a variable the source supplied (its own edge table, its own
+   centres, ...) or one derived earlier keeps exactly its value through every later history, and reading it
+   returns that value *)
+Theorem C08_stored_never_rewritten : forall ops s v x,
+  c08_lookup s v = Some x -> c08_lookup (c08_run s ops) v = Some x /\ c08_observe (c08_run s ops) v = Some x.
+Proof. exact stored_never_rewritten. Qed.
+Print Assumptions C08_stored_never_rewritten.
+
 (* a cache whose compared and stored key fields cover everything the value depends on is
    transparent for every history of calls (any cache/override flags) *)
 Theorem C08_cache_transparent : forall (V : Type) (compute : c08_key -> V) (compared stored dep : list string),
